@@ -70,6 +70,8 @@ def handleMp4 (kv : KV) : String :=
     let spec : Option String :=
       if res == "panic" then some "panic"
       else if alt != res then some "result-depends-on-media-bytes"
+      else if (kv.get? "pend").any (· != res) then some "result-depends-on-pending-schedule"
+      else if (kv.get? "pendranges").any (· != rangesS) then some "bytes-read-depend-on-pending-schedule"
       else match mediaTouched boxes ranges with
       | some (a, n) => some s!"media-payload-read-at-{a}+{n}"
       | none =>
